@@ -107,6 +107,12 @@ CLAIMED = {
    design="5/C15",
    note="Trusted: Roff.tla, Sgr.tla, VtParser.tla, TLC. Domain as stated in the property. Open finding F16 (bold+dim in one sequence: cansi's single intensity field) reported from its witness.",
    technique="TLA+ spec (Roff over VtParser+Sgr) + TLC trace validation of rendered documents"),
+ "C14": dict(
+   level="model_checking",
+   text="Every SVG produced by render_svg for seeded SGR-rich texts (generator of C07 plus XML-special characters, wide and zero-width characters, CRLF) x {VGA, WIN10} x default colours x background on/off is parsed by expat into rows of spans together with the meaning of each span's classes according to the document's own style sheet, and validated by TLC against Svg.tla: lines = visible text split at LF with CR before LF dropped; every character's span means a rendition the extractor specification (VtParser + lenient Sgr) allows for that character, with invert swapping fg/bg against the configured defaults and colours as the configured palette assigns them (Lossy); no class used is undefined; background rows show only expected colours; height = lines * 18 + 2 * padding.",
+   design="5/C14",
+   note="Trusted: Svg.tla/WinconExtract.tla/Sgr.tla/Lossy.tla/VtParser.tla, TLC. XML well-formedness is decided by expat (observation tooling tools/svg2json.py), not by the specification. Background rows are compared as sets of colours per line.",
+   technique="TLA+ spec (Svg over WinconExtract + Lossy) + TLC trace validation of expat-parsed documents"),
 }
 PENDING_REASON = "check not built yet in this revision of /verif (planned with the TLA+ specification, see DESIGN.md section 5); not claimed until its quick command exists"
 
